@@ -432,8 +432,8 @@ def run_protocol(binary, proto, cases, seed):
                     continue
                 res.append((c, e, judge_metric(proto, e, r.get("series") or {}), r.get("series")))
     except vlib.DriverDead as ex:
-        if ex.kind == "hang":
-            raise vlib.Infra("engine did not answer in time (machine load?): %s" % ex)
+        if ex.kind == "hang" or ex.rc in (-15, -9, -2):
+            raise vlib.Infra("engine did not answer in time or was killed from outside (machine load / cleanup?): %s" % ex)
         res.append(({"proto": proto}, {}, [("C16:%s:engine-died" % proto, str(ex))], None))
     finally:
         if dr is not None:
